@@ -124,7 +124,7 @@ def _make_mul_div_func(docstring, series_op, float_op, series_rop, float_rop):
                 initial_value=initial_value,
                 data=data,
                 closed=self.closed,
-            )
+            )._remove_redundant_step_points()
 
         self, other = _sanitize_binary_operands(self, other)
         if other._data is None:
